@@ -172,6 +172,12 @@ func gen(r *vh.Rand, tier string, n int, emit func(vh.Case)) {
 					op = fmt.Sprintf("close %d %s", w, park)
 					g.parked = park != "-"
 					g.fd = false
+					if park == "-" && r.Chance(1, 3) {
+						// closed (possibly without Sync): a listing of / copies the file's node into /d's links without
+						// telling the root; a later propagating flush of the same file must still reach the root
+						c.Ops = append(c.Ops, op, fmt.Sprintf("ls %d", (w+1)%nWorkers))
+						op = vh.Pick(r, []string{fmt.Sprintf("fflush %d %d", (w+2)%nWorkers, g.file), fmt.Sprintf("touch %d %d", (w+2)%nWorkers, g.file), fmt.Sprintf("fflush %d %d", w, g.file)})
+					}
 				case x < 89:
 					op = fmt.Sprintf("pubcat %d", f)
 				case x < 94:
